@@ -191,6 +191,29 @@ impl Inner {
                         }
                     }
                 }
+                // occasionally a condition variable lets a waiter go for no reason at all
+                // (only while the driver thread is settling: once it has been told that everything is
+                // quiet, what it observes must stay as it is)
+                if self.p_spurious > 0
+                    && matches!(&self.threads[0].state, TState::Blocked { on: Res::Settle, .. })
+                    && (self.rand() % 1000) < self.p_spurious
+                {
+                    let waiters: Vec<usize> = self
+                        .threads
+                        .iter()
+                        .enumerate()
+                        .filter(|(_, t)| matches!(&t.state, TState::Blocked { on: Res::Condvar(_), .. }))
+                        .map(|(i, _)| i)
+                        .collect();
+                    if !waiters.is_empty() {
+                        let k = self.below(waiters.len());
+                        let w = waiters[k];
+                        self.threads[w].state = TState::Runnable;
+                        self.threads[w].wake = Wake::Spurious;
+                        self.log(w, "spurious".into());
+                        continue;
+                    }
+                }
                 if self.p_stay > 0 && runnable.contains(&me) && (self.rand() % 1000) < self.p_stay {
                     return Some(me);
                 }
@@ -284,6 +307,14 @@ impl Runtime {
             // global deadlock including the driver thread: cannot continue
             if me == 0 || matches!(g.threads[0].state, TState::Blocked { .. }) {
                 eprintln!("CHECK-ERROR verif_rt: the driver thread is blocked and nothing can run (use settle())");
+                if std::env::var("VERIF_DEBUG").is_ok() {
+                    for (i, t) in g.threads.iter().enumerate() {
+                        eprintln!("  t{} {} {:?}", i, t.name, t.state);
+                    }
+                    for e in g.events.iter().rev().take(30).rev() {
+                        eprintln!("  ev t{} @{} {}", e.tid, e.t, e.what);
+                    }
+                }
                 std::process::exit(3);
             }
         }
